@@ -118,6 +118,31 @@ def function_level(ctx):
                     ctx.disagree("path_to_filesystem vs model", {"sane": s}, impl, a)
             elif "unsafe" not in a:
                 ctx.disagree("path_to_filesystem vs model", {"sane": s}, impl, a)
+    # the same on a root in which every generated component really exists (a name being present must not make it acceptable)
+    real_root = tempfile.mkdtemp(prefix="rverif-c06-tofs-")
+    try:
+        made = 0
+        for s in sane_list:
+            parts = [c for c in s.split("/") if c]
+            if not parts or made > 400 or any(len(c) > 200 or "\x00" in c for c in parts) or any(c in (".", "..") for c in parts):
+                continue
+            try:
+                os.makedirs(os.path.join(real_root, *parts), exist_ok=True)
+                made += 1
+            except OSError:
+                continue
+            spec_ok = all(pathutils.is_safe_filesystem_path_component(c) for c in parts)
+            try:
+                pathutils.path_to_filesystem(real_root, "/".join(parts))
+                got_ok = True
+            except ValueError:
+                got_ok = False
+            ctx.case("fn:tofs-existing", sample={"sane": "/".join(parts)[:60], "accepted": got_ok}, key=["tofs-x", "/".join(parts)], nontrivial=not spec_ok)
+            if got_ok and not spec_ok:
+                ctx.violation("path_to_filesystem accepts %r because the components exist on disk (a reserved name is among them)" % "/".join(parts)[:120],
+                              {"sane": "/".join(parts)[:200]}, "refused", "accepted")
+    finally:
+        shutil.rmtree(real_root, ignore_errors=True)
     # the token-name check is a local function of sync(): its verdict is read off the real sync() — "Malformed token" or not
     tok_app = App({"auth": {"type": "none"}})
     tok_app.request("MKCALENDAR", "/u/t/", login="u:pw")
@@ -251,7 +276,11 @@ def end_to_end(ctx):
                     if rng.random() < 0.3:
                         login = rng.choice(SHELLSEGS) + ":pw"
                 elif channel == "reserved":
-                    path = rng.choice(["/u/cal/", "/u/", "/u/plain/"]) + rng.choice(RESERVED) + rng.choice(["", "/", "/item/a.ics"])
+                    path = rng.choice(["/u/cal/", "/u/", "/u/plain/"]) + rng.choice(RESERVED) + rng.choice(["", "/", "/item/a.ics", "/item/", "/history/", "/sync-token/"])
+                    if rng.random() < 0.3:
+                        app.request("GET", "/u/cal/event1.ics", login=scenarios.LOGIN)        # (the item cache of /u/cal exists from now on)
+                        app.request("REPORT", "/u/cal/", '<?xml version="1.0"?><D:sync-collection xmlns:D="DAV:"><D:sync-token/><D:prop><D:getetag/></D:prop>'
+                                    '</D:sync-collection>', login=scenarios.LOGIN)
                 elif channel == "web":
                     method = rng.choice(["GET", "POST", "HEAD"])
                     path = "/.web/" + gen_path(rng, lead="")
